@@ -27,8 +27,12 @@ CONSTANTS MaxN,        \* enumeration bound on the number of nodes
 
 \* "DepartSkipSiblings": visit_* returns normally, depart_* raises SkipSiblings (only meaningful in walkabout)
 \* "DepartError": visit_* returns normally, depart_* raises a genuine error (not a pruning exception): it must reach the caller
-PruneKinds == {"none", "SkipChildren", "SkipSiblings", "SkipNode", "SkipDeparture", "DepartSkipSiblings", "DepartError"}
-VisitPrune(k) == IF k \in {"DepartSkipSiblings", "DepartError"} THEN "none" ELSE k        \* what visit_* raises
+\* "SkipSiblingsDepartError": visit_* raises SkipSiblings (kept pending while the children are walked) AND depart_* raises an error
+PruneKinds == {"none", "SkipChildren", "SkipSiblings", "SkipNode", "SkipDeparture", "DepartSkipSiblings", "DepartError", "SkipSiblingsDepartError"}
+DepartErrors == {"DepartError", "SkipSiblingsDepartError"}
+SpecialDepartures == {"DepartSkipSiblings"} \cup DepartErrors
+VisitPrune(k) == IF k \in {"DepartSkipSiblings", "DepartError"} THEN "none"
+                 ELSE IF k = "SkipSiblingsDepartError" THEN "SkipSiblings" ELSE k        \* what visit_* raises
 ExtIds == {"B", "B2", "A", "I", "O"}
 When(e) == CASE e \in {"B", "B2"} -> "BEFORE" [] e = "A" -> "AFTER" [] e = "I" -> "INNER" [] e = "O" -> "OUTTER"
 RegOrder == <<"B", "B2", "A", "I", "O">>    \* registration order inside one `when` bucket (ExtList.add)
@@ -57,13 +61,13 @@ InitEnum == /\ Source = "enum" /\ cid = 0
             /\ exts \in SUBSET ExtIds
             /\ ("B2" \in exts => "B" \in exts)
             /\ mode \in Modes
-            /\ (mode = "walk" => \A i \in 1..n : prune[i] \notin {"DepartSkipSiblings", "DepartError"})     \* walk() never departs
-            /\ Cardinality({i \in 1..n : prune[i] \in {"DepartSkipSiblings", "DepartError"}}) <= 1       \* one special departure per tree
+            /\ (mode = "walk" => \A i \in 1..n : prune[i] \notin SpecialDepartures)     \* walk() never departs
+            /\ Cardinality({i \in 1..n : prune[i] \in SpecialDepartures}) <= 1       \* one special departure per tree
             \* the history of the visitor object before this walk: "fresh", or "rewalk" = it has already walked a tree
             \* while it had no extension at all, and the extensions were added afterwards (ExtList.add).  The contract
             \* speaks of the extensions registered NOW: nothing below depends on hist (frame condition).
             /\ hist \in Histories
-            /\ (hist = "rewalk" => \A i \in 1..n : prune[i] \notin {"DepartSkipSiblings", "DepartError"})   \* special departures: fresh visitors only
+            /\ (hist = "rewalk" => \A i \in 1..n : prune[i] \notin SpecialDepartures)   \* special departures: fresh visitors only
 InitFile == /\ Source = "file"
             /\ cid \in 1..Len(FileCfgs)
             /\ n = FileCfgs[cid].n
@@ -145,7 +149,7 @@ DepartPre == /\ Running /\ Top.ph = "Dpre"
 \* super().depart(ob): a pruning exception raised by depart_* is remembered until the remaining extensions have left
 DepartMain == /\ Running /\ Top.ph = "Dmain"
               /\ IF Top.callDepart THEN Emit("main", "depart", Top.node) ELSE UNCHANGED events
-              /\ IF Top.callDepart /\ prune[Top.node] = "DepartError"
+              /\ IF Top.callDepart /\ prune[Top.node] \in DepartErrors
                    THEN \* a genuine error is not a pruning exception: nothing catches it, the traversal is abandoned
                         status' = "failed" /\ UNCHANGED <<stack, exc>>
                    ELSE /\ SetTop([Top EXCEPT !.ph = "Dpost", !.k = 1,
@@ -213,11 +217,11 @@ RECURSIVE Visited(_)
 Visited(x) == IF x = 1 THEN TRUE
               ELSE /\ Visited(parent[x])
                    /\ prune[parent[x]] \notin {"SkipChildren", "SkipNode"}
-                   /\ \A s \in Elder(x) : ~(Visited(s) /\ prune[s] \in {"SkipSiblings", "DepartSkipSiblings"})
+                   /\ \A s \in Elder(x) : ~(Visited(s) /\ prune[s] \in {"SkipSiblings", "DepartSkipSiblings", "SkipSiblingsDepartError"})
 PruningMeans == Completed => \A x \in 1..n : Seen("main", "visit", x) <=> Visited(x)
 
 \* an abandoned traversal (a genuine error raised by depart_*) owes nothing but the error itself: ErrorsSurface
-ErrorsSurface == Terminal => ((\E x \in 1..n : prune[x] = "DepartError" /\ Seen("main", "depart", x)) <=> status = "failed")
+ErrorsSurface == Terminal => ((\E x \in 1..n : prune[x] \in DepartErrors /\ Seen("main", "depart", x)) <=> status = "failed")
 Contract == ErrorsSurface /\ (status = "failed" \/
             /\ EnteredAtMostOnce /\ NoEscape /\ ExtBalanced /\ MainBalanced /\ WalkNoDepart
             /\ WellNested /\ DocumentedOrder /\ SameNodesForAll /\ PruningMeans)
